@@ -1402,6 +1402,13 @@ func (fr *c20Frames) hook(ipp **Interp, cx *c20Ctx) func(in ssa.Instruction, env
 						return a, true
 					}
 				}
+				// a struct parameter passed by value (a value receiver): the function reads it through its own copy, which it
+				// never writes (c20HeldParam) — the fields are what the caller knows about the value it passed
+				if p, ok := c20HeldParam(fa.X, x); ok && cx.pf[p] != nil {
+					if a, ok := cx.pf[p][fa.Field]; ok {
+						return a, true
+					}
+				}
 				if call, idx, ok := c20HeldResult(fa.X, x); ok {
 					if r := choice[call]; r != nil && idx < len(r.fields) && r.fields[idx] != nil {
 						if a, ok := r.fields[idx][fa.Field]; ok {
@@ -1413,6 +1420,63 @@ func (fr *c20Frames) hook(ipp **Interp, cx *c20Ctx) func(in ssa.Instruction, env
 		}
 		return AVal{}, false
 	}
+}
+
+// c20HeldParam: base (the operand of a field address that `at` loads through) is the function's own copy of a struct
+// parameter that was passed by value: a local whose only assignment is the parameter, made before the load, whose
+// address goes nowhere and whose fields are only read (c20PrivateCopy). A value receiver `func (s T) m()` reads its
+// fields this way. The copy then holds, at every read, exactly the value the caller passed.
+func c20HeldParam(base ssa.Value, at ssa.Instruction) (*ssa.Parameter, bool) {
+	al, ok := base.(*ssa.Alloc)
+	if !ok {
+		return nil, false
+	}
+	if st, _ := c20StructOf(al.Type()); st == nil {
+		return nil, false
+	}
+	st, private := c20PrivateCopy(al)
+	if !private || st == nil || !c20Dominates(st, at) {
+		return nil, false
+	}
+	p, isParam := st.Val.(*ssa.Parameter)
+	return p, isParam && p.Parent() == al.Parent()
+}
+
+// c20ValueFields: what the caller's path knows about the bool fields of a struct VALUE it passes to a helper: the value
+// is a parameter of the caller (or the caller's never-written copy of one) whose fields the caller's caller knew; or a
+// result of an interpreted call, or a load of the local that holds such a result and is only read (c20HeldResult) —
+// under the outcome chosen for that call. A struct value is a copy: nothing that happens later to the object it was
+// copied from can change it, so no freshness or read-only condition on the producer's object is needed.
+func c20ValueFields(a ssa.Value, outer *c20Ctx) map[int]AVal {
+	fromResult := func(call *ssa.Call, idx int) map[int]AVal {
+		if r := outer.choice[call]; r != nil && idx < len(r.fields) {
+			return r.fields[idx]
+		}
+		return nil
+	}
+	switch x := a.(type) {
+	case *ssa.Parameter:
+		return outer.pf[x]
+	case *ssa.Extract:
+		if call, ok := x.Tuple.(*ssa.Call); ok {
+			return fromResult(call, x.Index)
+		}
+	case *ssa.Call:
+		if _, isTuple := x.Type().(*types.Tuple); !isTuple {
+			return fromResult(x, 0)
+		}
+	case *ssa.UnOp:
+		if x.Op != token.MUL {
+			return nil
+		}
+		if p, ok := c20HeldParam(x.X, x); ok {
+			return outer.pf[p]
+		}
+		if call, idx, ok := c20HeldResult(x.X, x); ok {
+			return fromResult(call, idx)
+		}
+	}
+	return nil
 }
 
 // resOf: the abstract results at a return of a helper.
@@ -1696,7 +1760,12 @@ func (fr *c20Frames) outcomes(call *ssa.Call, depth int, outer *c20Ctx, ipOuter 
 		if v := ipOuter.val(a, pre); v.Kind != aTop {
 			cx.env0[p] = v
 		}
-		if st, isPtr := c20StructOf(p.Type()); st != nil && isPtr && c20OnlyReads(p, 0) {
+		if st, isPtr := c20StructOf(p.Type()); st != nil && !isPtr {
+			// a struct passed by value (c20ValueFields)
+			if f := c20ValueFields(a, outer); f != nil {
+				cx.pf[p] = f
+			}
+		} else if st != nil && isPtr && c20OnlyReads(p, 0) {
 			if pp, isParam := a.(*ssa.Parameter); isParam && outer.pf[pp] != nil {
 				cx.pf[p] = outer.pf[pp]
 			} else if rc, idx, field, ok := c20ResultOf(a); ok && field < 0 && c20OnlyReads(a, 0) {
@@ -2119,6 +2188,11 @@ func c20CommonFrame(INST *ssa.Function, a, b c20Effect) (fn *ssa.Function, level
 // touched only field by field (c20OwnStruct) with exactly one store to that field, and all these stores store that
 // parameter. -1: not so.
 func c20FieldOrigin(H *ssa.Function, idx, field int) int {
+	return c20FieldOriginX(H, idx, field, nil)
+}
+
+// c20FieldOriginX: c20FieldOrigin over the exits of H other than those in `skip` (exits the caller has judged itself).
+func c20FieldOriginX(H *ssa.Function, idx, field int, skip map[*ssa.BasicBlock]bool) int {
 	if H == nil || H.Blocks == nil {
 		return -1
 	}
@@ -2126,7 +2200,7 @@ func c20FieldOrigin(H *ssa.Function, idx, field int) int {
 	n := 0
 	for _, b := range H.Blocks {
 		ret, ok := blockTerm(b).(*ssa.Return)
-		if !ok || idx >= len(ret.Results) {
+		if !ok || idx >= len(ret.Results) || skip[b] {
 			continue
 		}
 		v := ret.Results[idx]
@@ -2268,6 +2342,375 @@ func c20Origin(v ssa.Value, via []*ssa.Call) (ssa.Value, []*ssa.Call) {
 		v, via = call.Call.Args[k], bvia
 	}
 	return v, via
+}
+
+// c20FieldOriginV: c20FieldOrigin for a struct result that is returned BY VALUE. An exit that returns the zero value of the
+// struct type (`return T{}, err`) puts no parameter into the field; it is accepted if the function's last result is an
+// error that is provably non-nil on that exit, and cond=true is reported: the answer "field = parameter k" then holds on
+// every exit with a nil error, and the reader has to stand behind the nil-error edge of the call (checked by c20OriginW).
+func c20FieldOriginV(w *World, H *ssa.Function, idx, field int) (par int, cond bool) {
+	if H == nil || H.Blocks == nil || idx >= H.Signature.Results().Len() {
+		return -1, false
+	}
+	if st, isPtr := c20StructOf(H.Signature.Results().At(idx).Type()); st == nil || isPtr {
+		return -1, false
+	}
+	// the exits that return an object are judged by c20FieldOrigin (it skips what this function accepts below only if
+	// told so): here the zero-value exits are looked at first
+	hi := w.Info(H)
+	last := H.Signature.Results().Len() - 1
+	zeroExit := map[*ssa.BasicBlock]bool{}
+	for _, b := range H.Blocks {
+		ret, ok := blockTerm(b).(*ssa.Return)
+		if !ok || idx >= len(ret.Results) {
+			continue
+		}
+		k, isConst := ret.Results[idx].(*ssa.Const)
+		if !isConst {
+			continue
+		}
+		if k.Value != nil || last == idx || !isErrorType(ret.Results[last].Type()) || !hi.nonNil(ret.Results[last], b) {
+			return -1, false
+		}
+		zeroExit[b] = true
+		cond = true
+	}
+	return c20FieldOriginX(H, idx, field, zeroExit), cond
+}
+
+// c20StructValue follows a struct VALUE (or the local that holds a private, never-written copy of one) of the frame
+// below the chain `via` back to the call that produced it: through the function's own copy of a by-value parameter
+// (`t0 = local T (s); *t0 = s`), through the call that passes it (a parameter of a helper is what its call passes),
+// through the local that holds a call's result and is only read. Returned: the producing call, the result index, the
+// chain of the frame that holds the call, and the instruction of that frame at which the value is consumed (the call
+// that passes it on, or the site the walk started from).
+func c20StructValue(v ssa.Value, site ssa.Instruction, via []*ssa.Call) (call *ssa.Call, idx int, rvia []*ssa.Call, rsite ssa.Instruction, ok bool) {
+	at := site
+	for step := 0; step < 16; step++ {
+		switch x := v.(type) {
+		case *ssa.Alloc:
+			if s, _ := c20StructOf(x.Type()); s == nil {
+				return nil, 0, nil, nil, false
+			}
+			st, private := c20PrivateCopy(x)
+			if !private || st == nil || at == nil || st.Parent() != at.Parent() || !c20Dominates(st, at) {
+				return nil, 0, nil, nil, false
+			}
+			v, at = st.Val, st
+		case *ssa.UnOp:
+			al, isAlloc := x.X.(*ssa.Alloc)
+			if x.Op != token.MUL || !isAlloc {
+				return nil, 0, nil, nil, false
+			}
+			v, at = al, x
+		case *ssa.Parameter:
+			if len(via) == 0 {
+				return nil, 0, nil, nil, false
+			}
+			h := via[len(via)-1]
+			H := staticCallee(h)
+			k := -1
+			for j, q := range H.Params {
+				if q == x {
+					k = j
+				}
+			}
+			if k < 0 || k >= len(h.Call.Args) {
+				return nil, 0, nil, nil, false
+			}
+			v, via, site, at = h.Call.Args[k], via[:len(via)-1], h, h
+		case *ssa.Extract:
+			c, isCall := x.Tuple.(*ssa.Call)
+			return c, x.Index, via, site, isCall
+		case *ssa.Call:
+			_, isTuple := x.Type().(*types.Tuple)
+			return x, 0, via, site, !isTuple
+		default:
+			return nil, 0, nil, nil, false
+		}
+	}
+	return nil, 0, nil, nil, false
+}
+
+// c20OriginW is c20Origin that also follows a record passed BY VALUE. A field read from the function's own copy of a struct value is, if the value came out of a module
+// function that puts one of its parameters into that field on every exit that returns an object (c20FieldOriginV), what
+// the producing call passes for that parameter. A struct value is a copy — no later write to any object can change it —
+// so, unlike for a pointer result, nothing is required of the producer's object after the return. Where the producer
+// also has exits `return T{}, err` (non-nil error), the place where the value is consumed in the producer's caller must
+// stand behind the nil-error edge of the producing call.
+func c20OriginW(w *World, v ssa.Value, via []*ssa.Call) (ssa.Value, []*ssa.Call) {
+	for step := 0; step < 12; step++ {
+		v, via = c20Origin(v, via)
+		u, ok := v.(*ssa.UnOp)
+		if !ok || u.Op != token.MUL {
+			return v, via
+		}
+		fa, ok := u.X.(*ssa.FieldAddr)
+		if !ok {
+			return v, via
+		}
+		if _, isAlloc := fa.X.(*ssa.Alloc); !isAlloc {
+			return v, via
+		}
+		// the read u is the site in its own frame (c20Origin may have moved up some frames to get there)
+		call, idx, rvia, rsite, ok := c20StructValue(fa.X, u, via)
+		if !ok {
+			return v, via
+		}
+		H := staticCallee(call)
+		if H == nil || !w.IsProductFn(H) {
+			return v, via
+		}
+		k, cond := c20FieldOriginV(w, H, idx, fa.Field)
+		if k < 0 || k >= len(call.Call.Args) {
+			return v, via
+		}
+		if cond {
+			g := w.Info(rsite.Parent()).GuardsOf(rsite)
+			okG := false
+			for _, l := range c20ErrNilLabels(call) {
+				if labelHas(g, l) {
+					okG = true
+				}
+			}
+			if !okG {
+				return v, via
+			}
+		}
+		v, via = call.Call.Args[k], rvia
+	}
+	return v, via
+}
+
+// ---- fourth pass: the name validated where it is produced ---------------------------------------------------------
+//
+// The gate "the name passed the certified validator" used to be a must-pass fact of Install about the very value that is
+// installed. Code that keeps the property moves the validation to the place that finds the name: a helper resolves the
+// source, validates the name it found and hands it back — as a plain result, or in a field of the source record it
+// returns — and Install never sees an unvalidated name at all. The fact is then decided where the value is made:
+//
+// c20ValidatedByProducer: v (a value of the frame below `via`, used under the guards g — must-pass facts in Install's
+// terms) is result idx of a module function H, or field f of the record that result is (by value) or points to, the use
+// stands behind the nil-error edge of that call, and on EVERY exit of H that can return a nil error the value V that is
+// returned (or that H stored into field f of the returned record — the only store to that field in H, made before the
+// return, into a record H allocated itself and touches field by field only) lies behind the must-pass fact
+// `IsValidFileName(V) == true` of that exit. An SSA value never changes, so the V that was tested is the V that is
+// returned; for a record reached through a pointer nobody may write the field afterwards: H hands out a fresh object
+// (c20FreshResult), the holder only reads it (c20OnlyReads inside c20ResultOf) — and gates/same-object-same-name checks
+// the whole install tree for writers of that field. The validator fact may itself come from a producer one level down
+// (V is a result of a helper of H, used behind its nil-error edge), up to three levels.
+func c20ValidatedByProducer(w *World, v ssa.Value, via []*ssa.Call, g map[string]string, depth int) bool {
+	if depth > 3 || v == nil {
+		return false
+	}
+	// into the frame that produced it
+	for {
+		p, isParam := v.(*ssa.Parameter)
+		if !isParam || len(via) == 0 {
+			break
+		}
+		h := via[len(via)-1]
+		k := -1
+		for j, q := range staticCallee(h).Params {
+			if q == p {
+				k = j
+			}
+		}
+		if k < 0 || k >= len(h.Call.Args) {
+			return false
+		}
+		v, via = h.Call.Args[k], via[:len(via)-1]
+	}
+	call, idx, field, ok := c20ResultOf(v)
+	if !ok || call == nil {
+		return false
+	}
+	H := staticCallee(call)
+	if H == nil || H.Blocks == nil || !w.IsProductFn(H) || idx >= H.Signature.Results().Len() {
+		return false
+	}
+	// the use stands behind the nil-error edge of the producing call
+	behind := false
+	for _, l := range c20ErrNilLabels(call) {
+		if labelHas(g, c20SubstVia(l, via)) {
+			behind = true
+		}
+	}
+	if !behind {
+		return false
+	}
+	_, isPtr := c20StructOf(H.Signature.Results().At(idx).Type())
+	if field >= 0 && isPtr && !c20FreshResult(H, idx) {
+		return false
+	}
+	for _, b := range H.Blocks {
+		if c20InCycle(b) {
+			return false
+		}
+	}
+	s := w.Summarize(H, Mode{Kind: mErr})
+	if s == nil || !s.Complete || len(s.Exits) == 0 {
+		return false
+	}
+	for _, e := range s.Exits {
+		if idx >= len(e.Ret.Results) {
+			return false
+		}
+		V := e.Ret.Results[idx]
+		if field >= 0 {
+			V = c20FieldAtExit(V, field, e.Ret)
+		}
+		if V == nil {
+			return false
+		}
+		if labelHas(e.Checked, "T(call:ngo/internal/file.IsValidFileName("+desc(V)+"))") {
+			continue
+		}
+		if !c20ValidatedByProducer(w, V, nil, e.Checked, depth+1) {
+			return false
+		}
+	}
+	return true
+}
+
+// c20FieldAtExit: the value field `field` of the record obj (a pointer to an allocation of the returning function, or a
+// value copied out of one right before the return) holds at the return ret: the record is touched field by field only
+// (c20OwnStruct), the function has exactly one store to that field of that record, and it comes before the return on
+// every path (it dominates it). nil: not decided.
+func c20FieldAtExit(obj ssa.Value, field int, ret *ssa.Return) ssa.Value {
+	var al *ssa.Alloc
+	switch x := obj.(type) {
+	case *ssa.Alloc:
+		al = x
+	case *ssa.UnOp:
+		a, isAl := x.X.(*ssa.Alloc)
+		if !isAl || x.Op != token.MUL || x.Block() != ret.Block() {
+			return nil
+		}
+		for _, in := range ret.Block().Instrs[instrIndex(x):] {
+			if _, isStore := in.(*ssa.Store); isStore {
+				return nil
+			}
+		}
+		al = a
+	}
+	if al == nil || !c20OwnStruct(al) {
+		return nil
+	}
+	var val ssa.Value
+	n := 0
+	for _, r := range *al.Referrers() {
+		fa, isField := r.(*ssa.FieldAddr)
+		if !isField || fa.Field != field || fa.Referrers() == nil {
+			continue
+		}
+		for _, rr := range *fa.Referrers() {
+			if st, isStore := rr.(*ssa.Store); isStore {
+				n++
+				if !c20Dominates(st, ret) {
+					return nil
+				}
+				val = st.Val
+			}
+		}
+	}
+	if n != 1 {
+		return nil
+	}
+	return val
+}
+
+// ---- fourth pass: a string cell as its own "found" mark -----------------------------------------------------------
+//
+// c20StrMark: the shared cell `cell` (the one the callback records the executable's path or its name in) marks by itself
+// that an executable was recorded — `file != ""` instead of a separate flag. Argument: (1) the cell is a string that is
+// empty when the walk starts (its one definition reaching the WalkDir call is the zero value or the constant ""), and
+// the cells are confined to parser and callback (checked by the caller), so it changes only by the callback's stores;
+// (2) every store of the callback to it lies behind the must-pass fact `cell == ""` (g holds the guards of the store
+// of the pair; every store to the cell is checked here) — so a store happens only while nothing was recorded; (3) every
+// value stored is never empty: it is the callback's path parameter and the walk runs only on a root that os.Stat
+// accepted or that was compared with "" — WalkDir (trusted) hands the callback the root or the root joined with entry
+// names, and os.Stat("") fails, so the path is not empty; or it is the name the module's name parser returned, and
+// every success exit of that parser returns a non-empty rest (c20CutsPrefix on each exit). Hence after the first
+// recorded executable the cell is non-empty for the rest of the walk: a second executable finds `cell != ""` and
+// does not pass the guard, and after the walk `cell == ""` says that no executable was recorded.
+func c20StrMark(k *c20Walk, cell int, g map[string]string, parser *ssa.Function, parsed0 string) bool {
+	w := k.w
+	var t types.Type
+	if k.recv != nil {
+		if f := fieldOf(k.recv.Type(), cell); f != nil {
+			t = f.Type()
+		}
+	} else if cell < len(k.cb.FreeVars) {
+		if pt, ok := k.cb.FreeVars[cell].Type().Underlying().(*types.Pointer); ok {
+			t = pt.Elem()
+		}
+	}
+	if t == nil {
+		return false
+	}
+	if b, ok := t.Underlying().(*types.Basic); !ok || b.Kind() != types.String {
+		return false
+	}
+	isEmpty := func(v ssa.Value) bool {
+		c, ok := v.(*ssa.Const)
+		return ok && c.Value != nil && c.Value.Kind() == constant.String && constant.StringVal(c.Value) == ""
+	}
+	// (1)
+	defs := k.defsBefore(k.call, cell, false)
+	if len(defs) != 1 || defs[0].walk {
+		return false
+	}
+	if !defs[0].entry {
+		v, zero, ok := k.defValue(defs[0], cell)
+		if !ok || !(zero || (v != nil && isEmpty(v))) {
+			return false
+		}
+	}
+	// (2), (3)
+	empty1, empty2 := "EQ("+k.innerDesc(cell)+",const:\"\")", "EQ(const:\"\","+k.innerDesc(cell)+")"
+	if !labelHas(g, empty1) && !labelHas(g, empty2) {
+		return false
+	}
+	fi := w.Info(k.cb)
+	n := 0
+	for _, cp := range k.stores(true) {
+		if cp.cell != cell {
+			continue
+		}
+		n++
+		gs := fi.GuardsOf(cp.st)
+		if !labelHas(gs, empty1) && !labelHas(gs, empty2) {
+			return false
+		}
+		val := cp.st.Val
+		if _, x, ok := k.value(val, true); ok && x != nil {
+			val = x
+		}
+		switch {
+		case val == ssa.Value(k.pathParam()):
+			// the walk runs only on a root that is not empty
+			root := desc(k.call.Common().Args[0])
+			gw := w.Info(k.outer).GuardsOf(k.call)
+			if !labelHas(gw, "EQ(call:os.Stat("+root+")#err,nil)") && !labelHas(gw, "NE("+root+",const:\"\")") && !labelHas(gw, "NE(const:\"\","+root+")") {
+				return false
+			}
+		case parser != nil && desc(val) == parsed0:
+			q, okq := w.depConstString("github.com/notaryproject/notation-plugin-framework-go/plugin", "BinaryPrefix")
+			s := w.Summarize(parser, Mode{Kind: mErr})
+			if !okq || q == "" || s == nil || !s.Complete || len(s.Exits) == 0 {
+				return false
+			}
+			for _, e := range s.Exits {
+				if !c20CutsPrefix(e, fmt.Sprintf("const:%q", q), len(q)) {
+					return false
+				}
+			}
+		default:
+			return false
+		}
+	}
+	return n > 0
 }
 
 // c20UnstableRead: v is a field read through a pointer to a heap object (not a local struct of the reading function)
